@@ -442,7 +442,8 @@ def check_unwind(pid, tier, seed):
     rc, replay = 0, None
     if violations:
         order = {"double-drop": 0, "stale-read": 1, "crash": 2, "panic": 3, "unusable": 4}
-        violations.sort(key=lambda r: (order.get(r["direct"][0][0], 9), len(r["hist"])))
+        # a repeated real uid first, then stale reads, crashes; the count of unit values last among the double drops
+        violations.sort(key=lambda r: (order.get(r["direct"][0][0], 9), "unit values" in r["direct"][0][1], len(r["hist"])))
         r = violations[0]
         kinds = {r["direct"][0][0]}
         small = shrink(r["hist"], kinds)
